@@ -25,6 +25,9 @@
 //               x / delta: `+`-joined lanes (prime fields; RP25519: scalars s standing for the points s*G) or ONE number
 //               (Boolean arrays: the integer of the little-endian bytes); BitDecomposed: `+`-joined elements
 //   c04.revimpls  the `ctx/sharing` instances the suite drives
+//   c04.prf <lanes 1|16> <seed> <x lanes> <k> <attacker|-> <dest|-> <R|z> <delta lanes>   the real eval_dy_prf (MAC
+//               context, one record) with the copy of the opening of R = g^r (R: delta = scalars s for the points s*G)
+//               or of z that <attacker> sends to <dest> altered
 //   c04.adaptive <field> <rpb> <count> <seed> <prog> <inputs> <corrupt> <k> <target record> <key batch> <d> <w,w,…>
 //               messages of gate k (a multiplication) of the target record get +d (value part) and +r'*d (MAC part), r' =
 //               the key opened by <key batch> (earlier than the target's batch); the deviating helper's openings of
@@ -75,6 +78,7 @@ use crate::{
         RecordId,
         basics::{Reveal, SecureMul, malicious_reveal, partial_reveal, reveal},
         boolean::step::TwoHundredFiftySixBitOpStep,
+        ipa_prf::{prf_eval::eval_dy_prf, step::PrfStep},
         context::{
             Context, TEST_DZKP_STEPS, UpgradableContext, UpgradedContext, Validator, dzkp_validator::DZKPValidator,
             upgrade::Upgradable,
@@ -1650,6 +1654,108 @@ fn exec_revimpl(t: &[&str]) -> String {
     }
 }
 
+// ------------------------------------------------------------------------------------------ openings of eval_dy_prf
+
+/// the real `eval_dy_prf` (MAC context over Fp25519, one record of `N` lanes) with one altered copy on the opening of
+/// `R = g^r` (`PrfStep::RevealR`: a plain `Replicated<RP25519, N>`) or of `z` (`PrfStep::Revealz`: a MAC'd share).
+/// Response: `ref:<pseudonyms computed in the clear> <h1>,<h2>,<h3>`, `h` = `ok:<pseudonyms>` | `fail` | `err:<kind>` |
+/// `~` (not waited for: with an altered copy only the receiving helper is reported).
+macro_rules! prf_runner {
+    ($name:ident, $n:expr) => {
+        async fn $name(seed: u64, x: &str, k: &str, tamper: Option<Arc<Tamper>>, only: Option<usize>) -> String {
+            const N: usize = $n;
+            let world = TestWorld::new_with(rev_config(seed, &tamper));
+            let mut rng = Rng(seed ^ 0xC04);
+            let xa = <Fp25519 as Vt<N>>::parse(x);
+            let kv = val::<Fp25519>(k);
+            let reference: Vec<String> = xa
+                .clone()
+                .into_iter()
+                .map(|xv| u64::from(RP25519::from((xv + kv).invert())).to_string())
+                .collect();
+            let xs = share3_arr::<Fp25519, N>(&mut rng, &xa);
+            let ks = share3::<Fp25519>(&mut rng, kv);
+            let mut futs = world
+                .malicious_contexts()
+                .into_iter()
+                .zip(xs.into_iter().zip(ks))
+                .enumerate()
+                .map(|(h, (ctx, (xs, ks)))| async move {
+                    let v = ctx.set_total_records(1usize).validator::<Fp25519>();
+                    let r = eval_dy_prf::<_, N>(v.context(), RecordId::FIRST, &ks, xs).await;
+                    let o = match r {
+                        Ok(p) => format!("ok:{}", p.iter().map(u64::to_string).collect::<Vec<_>>().join("+")),
+                        Err(Error::MaliciousRevealFailed) => "fail".to_string(),
+                        Err(e) => format!("err:{}", kind(&e)),
+                    };
+                    drop(v);
+                    (h, o)
+                })
+                .collect::<FuturesUnordered<_>>();
+            let mut outs = vec!["~".to_string(); 3];
+            while let Some((h, o)) = futs.next().await {
+                if only.is_none() || only == Some(h) {
+                    outs[h] = o;
+                }
+                if only == Some(h) {
+                    break;
+                }
+            }
+            format!("ref:{} {}", reference.join("+"), outs.join(","))
+        }
+    };
+}
+
+prf_runner!(prf_run_1, 1);
+prf_runner!(prf_run_16, 16);
+
+/// `c04.prf <lanes> <seed> <x lanes> <k> <attacker|-> <dest|-> <R|z> <delta lanes>`
+fn exec_prf(t: &[&str]) -> String {
+    let lanes: usize = t[1].parse().unwrap();
+    let seed: u64 = t[2].parse().unwrap();
+    let (x, k) = (t[3].to_string(), t[4].to_string());
+    let step = if t[7] == "R" { PrfStep::RevealR } else { PrfStep::Revealz };
+    let altered = t[8].split('+').any(|d| d != "0");
+    let q = RevReq {
+        ctx: MAC.into(),
+        sharing: REP.into(),
+        vtype: String::new(),
+        entry: String::new(),
+        seed,
+        x: x.clone(),
+        ex: None,
+        at: opt_role(t[5]),
+        dest: opt_role(t[6]),
+        delta: t[8].into(),
+    };
+    let mut tamper = match (t[7], lanes) {
+        ("R", 1) => q.tamper::<RP25519, 1>(false),
+        ("R", 16) => q.tamper::<RP25519, 16>(false),
+        ("z", 1) => q.tamper::<Fp25519, 1>(false),
+        ("z", 16) => q.tamper::<Fp25519, 16>(false),
+        (s, n) => panic!("harness: no PRF runner for step {s} with {n} lanes"),
+    };
+    if let Some(tm) = tamper.as_mut() {
+        // the opening inside the protocol (not the validator's `validate/reveal_r`)
+        let tm = Arc::get_mut(tm).unwrap();
+        tm.targets[0].suffix = format!("/malicious_protocol/{}", step.as_ref());
+    }
+    let only = if altered { q.dest } else { None };
+    let tm = tamper.clone();
+    let r = block_on_timeout(40, async move {
+        match lanes {
+            1 => prf_run_1(seed, &x, &k, tm, only).await,
+            16 => prf_run_16(seed, &x, &k, tm, only).await,
+            n => panic!("harness: no PRF runner for {n} lanes"),
+        }
+    });
+    match (r, tamper) {
+        (Err(e), _) => e,
+        (Ok(_), Some(t)) if t.hits.load(Ordering::SeqCst) == 0 => "untouched".into(),
+        (Ok(out), _) => out,
+    }
+}
+
 fn opt_role(s: &str) -> Option<usize> {
     if s == "-" { None } else { Some(s.parse::<usize>().unwrap() - 1) }
 }
@@ -1658,6 +1764,9 @@ fn exec_reveal(req: &str) -> String {
     let t: Vec<&str> = req.split(' ').collect();
     if t[0] == "c04.revimpl" || t[0] == "c04.revimpls" {
         return exec_revimpl(&t);
+    }
+    if t[0] == "c04.prf" {
+        return exec_prf(&t);
     }
     let field = t[1].to_string();
     let seed: u64 = t[2].parse().unwrap();
@@ -1768,6 +1877,30 @@ fn verif_c04_reveal() {
                     "c04.revimpl {ctx} {sharing} {vtype} generic {} {x} - {} {} {}",
                     rng.below(1 << 30), 1 + n % 3, 1 + (n + 1) % 3, rev_zero(vtype, elements)
                 ));
+            }
+            // the openings inside eval_dy_prf: R = g^r (a plain Replicated<RP25519, N>, never MAC-upgraded) and z
+            for lanes in [1usize, 16] {
+                let vt = if lanes == 1 { "Fp25519".to_string() } else { format!("Fp25519x{lanes}") };
+                for _ in 0..2 {
+                    let x = rev_value(rng, &vt, 1, false);
+                    let k = nonzero_val(rng, "Fp25519");
+                    out.push(format!("c04.prf {lanes} {} {x} {k} - - R {}", rng.below(1 << 30), rev_zero(&vt, 1)));
+                }
+                let reps = if thorough { 3 } else { 1 };
+                for rep in 0..reps {
+                    let mut n = rep;
+                    for step in ["R", "z"] {
+                        for (at, dest) in [(1usize, 2usize), (2, 3), (3, 1), (1, 3), (2, 1), (3, 2)] {
+                            n += 1;
+                            let x = rev_value(rng, &vt, 1, false);
+                            let k = nonzero_val(rng, "Fp25519");
+                            let delta = rev_delta(rng, &vt, 1, n);
+                            out.push(format!("c04.prf {lanes} {} {x} {k} {at} {dest} {step} {delta}", rng.below(1 << 30)));
+                        }
+                    }
+                }
+                let x = rev_value(rng, &vt, 1, false);
+                out.push(format!("c04.prf {lanes} {} {x} 77 2 3 R {}", rng.below(1 << 30), rev_zero(&vt, 1)));
             }
             out
         },
